@@ -3,6 +3,22 @@ use super::*;
 use decaf377::{Fp, Fq, Fr};
 use std::convert::TryInto;
 
+/// a user-defined flags type of N bits (3 <= N <= 8), kept in the top N bits of the flag byte: the generic `Flags` API
+/// of ark-serialize accepts any type with BIT_SIZE <= 8, not only the three the curve code uses
+#[cfg(feature = "ark")]
+#[derive(Clone, Copy, Default, PartialEq, Eq, Debug)]
+pub struct NBits<const N: usize>(pub u8);
+#[cfg(feature = "ark")]
+impl<const N: usize> ark_serialize::Flags for NBits<N> {
+    const BIT_SIZE: usize = N;
+    fn u8_bitmask(&self) -> u8 {
+        if N >= 8 { self.0 } else { (self.0 & ((1u16 << N) as u8).wrapping_sub(1)) << (8 - N) }
+    }
+    fn from_u8(value: u8) -> Option<Self> {
+        Some(NBits(if N >= 8 { value } else { value >> (8 - N) }))
+    }
+}
+
 #[cfg(feature = "ark")]
 use ark_ff::{BigInteger, Field, One, PrimeField, Zero};
 #[cfg(feature = "ark")]
@@ -278,6 +294,12 @@ macro_rules! field_impl {
                                 ("2", "1") => x.serialize_with_flags(&mut v, SWFlags::YIsNegative),
                                 ("2", "2") => x.serialize_with_flags(&mut v, SWFlags::PointAtInfinity),
                                 ("2", _) => x.serialize_with_flags(&mut v, SWFlags::YIsPositive),
+                                ("3", f) => x.serialize_with_flags(&mut v, NBits::<3>(f.parse().unwrap_or(0))),
+                                ("4", f) => x.serialize_with_flags(&mut v, NBits::<4>(f.parse().unwrap_or(0))),
+                                ("5", f) => x.serialize_with_flags(&mut v, NBits::<5>(f.parse().unwrap_or(0))),
+                                ("6", f) => x.serialize_with_flags(&mut v, NBits::<6>(f.parse().unwrap_or(0))),
+                                ("7", f) => x.serialize_with_flags(&mut v, NBits::<7>(f.parse().unwrap_or(0))),
+                                ("8", f) => x.serialize_with_flags(&mut v, NBits::<8>(f.parse().unwrap_or(0))),
                                 _ => return "bad-op".into(),
                             };
                             match r { Ok(()) => tohex(&v), Err(_) => "err".into() }
@@ -311,6 +333,12 @@ macro_rules! field_impl {
                                     Ok((x, f)) => format!("ok {} {}", out(&x), match f { SWFlags::YIsNegative => 1, SWFlags::PointAtInfinity => 2, _ => 0 }),
                                     Err(er) => e(er),
                                 },
+                                "3" => match F::deserialize_with_flags::<_, NBits<3>>(&bs[..]) { Ok((x, f)) => format!("ok {} {}", out(&x), f.0), Err(er) => e(er) },
+                                "4" => match F::deserialize_with_flags::<_, NBits<4>>(&bs[..]) { Ok((x, f)) => format!("ok {} {}", out(&x), f.0), Err(er) => e(er) },
+                                "5" => match F::deserialize_with_flags::<_, NBits<5>>(&bs[..]) { Ok((x, f)) => format!("ok {} {}", out(&x), f.0), Err(er) => e(er) },
+                                "6" => match F::deserialize_with_flags::<_, NBits<6>>(&bs[..]) { Ok((x, f)) => format!("ok {} {}", out(&x), f.0), Err(er) => e(er) },
+                                "7" => match F::deserialize_with_flags::<_, NBits<7>>(&bs[..]) { Ok((x, f)) => format!("ok {} {}", out(&x), f.0), Err(er) => e(er) },
+                                "8" => match F::deserialize_with_flags::<_, NBits<8>>(&bs[..]) { Ok((x, f)) => format!("ok {} {}", out(&x), f.0), Err(er) => e(er) },
                                 _ => "bad-op".into(),
                             }
                         }
